@@ -123,6 +123,11 @@ def effects(ctx):
                                                               else ('dict', repr(k)[:40]))
             try:
                 I.getattr(obj, '_derivative')(x, (), {})
+            except InterpRaise as exc:
+                rep.violation('R-EFFECTS', 'core.%s._derivative' % cls, core.relpath,
+                              {'raises': exc.exc_name, 'message': exc.msg[:100]}, 'a valid call does not raise',
+                              '%s/%s' % (cls, method), key='effects-raises')
+                continue
             finally:
                 I.on_setattr = None
                 I.on_dict_store = None
